@@ -429,6 +429,18 @@ def impl(op, backend):
             return "err HashDiffers"
         return "ok %d %d %d %d %d %d" % (a == b, a != b, a < b, a <= b, a > b, a >= b)
     _, o, L, R = op
+    # history: an operator must depend on its operands only. For every other op a "twin" of each Duration operand — equal as a native
+    # timedelta (one year <-> 365 days), different in years/months — goes through the scaling operators first
+    import zlib as _z
+    if _z.crc32(("twin" + repr(op)).encode()) & 1:
+        for X in (L, R):
+            if X[0] == "D":
+                t = ("D", X[1] + 1, X[2], X[3], X[4] - 365) + tuple(X[5:]) if X[1] == 0 else ("D", 0, X[2], X[3], X[4] + 365 * X[1]) + tuple(X[5:])
+                try:
+                    tw = build(t)
+                    tw * 2, tw // 3, abs(tw), tw.hours, tw.minutes, tw.remaining_seconds
+                except (OverflowError, ValueError, ZeroDivisionError):
+                    pass
     a = build(L)
     # operands whose lazily cached accessors were (or were not) read before the operation: must not matter
     import zlib
